@@ -130,7 +130,14 @@ CHECKS["C19"] = (
     "DESIGN.md 7/C19",
 )
 
-NOT_YET = {"C01": "being built: Machine/RefSem models and the compile-correctness theorem are in progress; claimed once its theorem and correspondence pass on the unchanged tree"}
+CHECKS["C01"] = (
+    "Coq compiler-correctness theorem: an execution model of the emitted code (Machine.v, one state change per emitted line of Transpile.tr) equals the documented semantics written as a direct big-step evaluator (RefSem.v) for every core program, fuel, state and flag set (induction on fuel and tree, one simulation lemma per construct) + three ties to the implementation evaluated in Coq (Machine vs real runs, RefSem vs real runs, exact text)",
+    "Machine-checked for every core program of any nesting depth, every input list and the nine flag sets: exec = eval on stack, printed text, variables, register, input cursors, errors and out-of-fuel (C01_compile_correct, C01_compile_correct_in_def, C01 for whole programs incl. start-up and implicit output), both evaluators leave the interpreter context balanced, and the regenerated template text/arity of every core element and modifier is the one the machine gives meaning to (C01_templates). Core: integer literals, 37 stack/arithmetic/list elements, variables, if/for/while, the four lambdas and the shorthand lambdas, named functions with numeric/named/* parameters, list literals, modifiers v & ~ ß ƒ ɖ ₌ ₍.",
+    "Trusted: coqc kernel; CPython executing the emitted lines as Machine.v says is the principal modelled-not-verified link (checked by Machine-vs-implementation runs over generated programs x inputs x flags); element semantics are shared by both evaluators (their fidelity matters only for the ties); outside the core: strings, X/x, assignments inside defs, closures over enclosing parameters. Known finding: a function value as if-condition / for-iterable is not called first (Structures.md).",
+    "DESIGN.md 7/C01",
+)
+
+NOT_YET = {}
 
 def main():
     props = [json.loads(l)["id"] for l in open(os.path.join(ROOT, "properties.jsonl"), encoding="utf-8")]
